@@ -1660,7 +1660,7 @@ impl ArchiveBuilder {
 
     /// Calculate file encryption key
     fn calculate_file_key(&self, filename: &str, file_pos: u64, file_size: u32, flags: u32) -> u32 {
-        let base_key = hash_string(filename, hash_type::FILE_KEY);
+        let base_key = crate::crypto::file_key(filename);
 
         if flags & BlockEntry::FLAG_FIX_KEY != 0 {
             // For FIX_KEY, use only the low 32 bits of the file position
